@@ -20,7 +20,8 @@ RULE = (
     "only for string/bytes/records/uuid/datetime_i64/arrays/structs; arrays are tuple[X, ...]; explicit defaults "
     "inhabit the declared type (None only if nullable, () only for arrays); tags are unique non-negative ints, only "
     "on flexible classes, each with an explicit or derivable default; class vars present. Per class: entity_reader and "
-    "entity_writer build, and the all-zero instance and the defaults-only instance round-trip. Non-trivial: every "
+    "entity_writer build, the all-zero instance and the defaults-only instance round-trip, and the raw field descriptions "
+    "(type, default, metadata) read the same before and after that use. Non-trivial: every "
     "field; distinct = (class, field)."
 )
 
@@ -156,7 +157,9 @@ def check_class(path: str) -> tuple[int, list, list]:
                                 f"declared is {f.pytype.__module__}.{f.pytype.__qualname__}"))
             except Exception as e:
                 out.append((f"kio-default-resolution-raised:{type(e).__name__}", f"{fid}: {e!r}"))
-    # reader / writer derivable, default-only and zero instance round-trip
+    # reader / writer derivable, default-only and zero instance round-trip; the description is a constant of the class, so
+    # it must read the same after codecs were derived from it and used (snapshot of the raw dataclass fields, nested too)
+    before = _raw_snapshot(cls)
     try:
         from .. import kioapi as K
 
@@ -184,7 +187,32 @@ def check_class(path: str) -> tuple[int, list, list]:
                 out.append(("defaults-only-roundtrip", f"{path}: {x!r} != {y!r}"))
         except Exception as e:
             out.append((f"defaults-only-roundtrip-raised:{type(e).__name__}", f"{path}: {e!r}"))
+    after = _raw_snapshot(cls)
+    if after != before:
+        diff = [f"{a[0]}: {a[1:]} -> {b[1:]}" for a, b in zip(before, after) if a != b][:3]
+        out.append(("description-changed-by-use", f"{path}: the field descriptions differ after deriving and using reader/writer: {diff}"))
     return len(cd.fields), out, ids
+
+
+def _raw_snapshot(cls, depth: int = 0) -> tuple:
+    """(qualified field name, repr of type, repr of default, repr of default_factory, sorted metadata) for every field,
+    nested dataclasses included - read straight from dataclasses.fields, not through kv.describe's cache."""
+    rows = []
+    for f in dataclasses.fields(cls):
+        rows.append((f"{cls.__qualname__}.{f.name}", repr(f.type), repr(f.default), repr(f.default_factory),
+                     tuple(sorted((str(k), repr(v)) for k, v in f.metadata.items()))))
+        if depth < 4:
+            for arg in _dataclass_args(f.type):
+                rows.extend(_raw_snapshot(arg, depth + 1))
+    return tuple(rows)
+
+
+def _dataclass_args(tp):
+    if dataclasses.is_dataclass(tp) and isinstance(tp, type):
+        yield tp
+        return
+    for a in typing.get_args(tp):
+        yield from _dataclass_args(a)
 
 
 def _work(paths):
